@@ -33,7 +33,7 @@ package mount
 //@   nopanic
 
 //@ func (fs *FS) Mount(path string) (mount hackpadfs.FS, subPath string)
-//@   props C06 C04
+//@   props C06 C04 C03
 //@   deterministic
 //@   requires fs != nil
 //@   use vpBasic(path)
@@ -59,7 +59,7 @@ package mount
 //@ spec oSub(fs *FS, name string) := ret("mount.(*FS).Mount", 1, fs, name)
 
 //@ func (fs *FS) Open(name string) (f hackpadfs.File, err error)
-//@   props C06 C04 C05
+//@   props C06 C04 C05 C03
 //@   modifies world()
 //@   requires fs != nil && fs.rootFS != nil
 //@   ensures "delegates" [C06] implies(VP(name), f == old(ret("hackpadfs.(FS).Open", 0, rOM(fs, name), rOS(fs, name))) &&
@@ -86,7 +86,7 @@ package mount
 //@ spec amIsDir(fs *FS, p string) := retW("hackpadfs.(FileInfo).IsDir", 0, worldAfterW("hackpadfs.(File).Stat", amW1(fs, p), amFile(fs, p)), amInfo(fs, p))
 
 //@ func (fs *FS) addMount(p string, mountFS hackpadfs.FS) (err error)
-//@   props C06
+//@   props C06 C03
 //@   requires fs != nil && mountFS != nil && !held(fs.mountMu)
 //@   modifies mapOf(fs.mounts), world()
 //@   ensures "invalid" implies(!VP(p) || p == ".", err == hackpadfs.ErrInvalid)
@@ -100,7 +100,7 @@ package mount
 //@   nopanic
 
 //@ func (fs *FS) AddMount(path string, mount hackpadfs.FS) (err error)
-//@   props C06 C05
+//@   props C06 C05 C03
 //@   requires fs != nil && mount != nil && !held(fs.mountMu)
 //@   modifies mapOf(fs.mounts), world()
 //@   ensures "errtype" implies(err != nil, isPathError(err) && pathOf(err) == path)
@@ -115,7 +115,7 @@ package mount
 //@   deterministic
 
 //@ func NewFS(rootFS hackpadfs.FS) (r *FS, err error)
-//@   props C06
+//@   props C06 C03
 //@   requires rootFS != nil
 //@   ensures "fresh" err == nil && r != nil && fresh(r) && r.rootFS == rootFS && forall(k, string, !in(k, dom(r.mounts))) && !held(r.mountMu)
 //@   nopanic
@@ -143,7 +143,7 @@ package mount
 //@ spec rW5(fs *FS, o string, n string) := worldAfterW("hackpadfs.Chmod", rW4(fs, o, n), rOM(fs, n), rOS(fs, n), rMode2(fs, o, n))
 
 //@ func (fs *FS) Rename(oldname string, newname string) (err error)
-//@   props C06 C05 C04
+//@   props C06 C05 C04 C03
 //@   modifies world()
 //@   requires fs != nil
 //@   opaque mountPoint keep nonnil
@@ -176,7 +176,7 @@ package mount
 
 // MountPoints lists exactly the mount table (the observation point of C06): every mount point once, nothing else.
 //@ func (fs *FS) MountPoints() (points []Point)
-//@   props C06
+//@   props C06 C03
 //@   requires fs != nil
 //@   range 1 over fs.mounts visited V key k
 //@   range 1 invariant "shape" ref(points) == 0 || fresh(points)
